@@ -213,6 +213,9 @@ def run_shard(args):
             whole = variant == "cmd_black"  # cat changes nothing: byte oracle applies
         if variant == "formfeed":
             text = text.replace("\ndef test_1", "\n\x0c\ndef test_1", 1)
+            # characters that str.splitlines() treats as line boundaries but Python's tokenizer does not,
+            # in a string literal and a comment above the snapshots
+            text = text.replace("\ndef test_0", '\nSEPARATORS = "a\x0bb\x1cc\x1dd\x1ee\x85f\u2028g\u2029h"  # \x0c \u2028 in a comment\n\ndef test_0', 1)
         if variant == "nofinal":
             text = text.rstrip("\n")
         raw = text.encode("utf-8")
